@@ -1,4 +1,5 @@
 import Dnp3.Props.C20Lists
+import Dnp3.Model.FfiMeas
 /-!
 # C20 — The C/.NET/Java binding layer maps every value to its namesake, losslessly
 
@@ -73,5 +74,86 @@ theorem struct_fields_namesake :
 /-- the crossed rows of D21 are gone from the table read from the current source -/
 theorem d21_absent : d21Present = false := by
   decide +kernel
+
+/-! ## master-side measurement path — `impl ReadHandler for ffi::ReadHandler`, `implement_iterator!`, `OctetStringIterator`
+
+The quantifier ("every measurement handed to the foreign consumer") is the table `Dnp3.Gen.FfiHandler.*`, regenerated from
+`ffi/dnp3-ffi/src/handler.rs` on every run by `tools/gen_ffi_handler.py`.  Together with `struct_fields_namesake`
+(`index: idx`, `value: value.value`, `flags: value.flags.into()`, `time: value.time.into()` of every `ffi::X::new`) the
+theorems below say that each field of each measurement struct the consumer reads is fed from its namesake of the
+native value the master handed to the handler.  The dynamic half is the engine `ffimeas`. -/
+section handler
+open Dnp3.Gen.FfiHandler Dnp3.FfiHandler
+
+/-- the tables are not empty: 12 iterator methods + 2 fragment methods + abs_time + device attribute, 11 macro
+    instantiations, 9 attribute arms, 12 constructors -/
+theorem handler_table_wellformed :
+    0 < methods.length ∧ 0 < iterators.length ∧ 0 < attrArms.length ∧ 0 < ctors.length ∧
+    (methods.filter (·.kind == 0)).length = iterators.length + 1 ∧
+    distinct (methods.map (·.name)) = true ∧ distinct (iterators.map (·.itName)) = true ∧
+    distinct (iterators.map (·.func)) = true ∧ distinct (iterators.map (·.libTy)) = true := by
+  decide +kernel
+
+/-- every method of the impl invokes exactly one callback of the interface struct — its namesake — and a measurement
+    method hands it (self, info.into(), &mut <its own adapter>::new(iter)) -/
+theorem handler_methods_namesake : methods.all (MethodNamesake methodCfg attrArms.length) = true := by
+  decide +kernel
+
+/-- every adapter is built by exactly one method; `OctetStringIterator` too; no method builds anything else -/
+theorem handler_adapters_used_once : AdaptersUsedOnce octetIt methods iterators = true := by
+  decide +kernel
+
+/-- `implement_iterator!(XIterator, x_iterator_next, X, ffi::X)` for every instantiation -/
+theorem iterator_instances_namesake :
+    iterators.all (IterInstNamesake methodCfg.sIterator (c!"IteratorNext") (c!"ffi::")) = true := by
+  decide +kernel
+
+/-- the macro's `fn next` turns the native pair `(value: $lib_type, idx: u16)` into `<$ffi_type>::new(idx, value)`,
+    and the constructor of every instantiation takes `(idx: u16, value: <its native type>)` -/
+theorem iterator_macro_feeds_namesake :
+    MacroFeedsNamesake macroCfg = true ∧ iterators.all (CtorMatches macroCfg ctors) = true := by
+  decide +kernel
+
+/-- every exported next function advances the adapter and then yields the slot -/
+theorem iterator_next_advances_then_yields : macroFnSteps = nextSteps ∧ octetFnSteps = nextSteps := by
+  decide +kernel
+
+/-- a fresh `ByteIterator` is created for EVERY octet string (seed S80 removes the reset of the slot: the second and
+    later strings of a header then reach the consumer through the consumed iterator of the first), the item is built from
+    the string's own index and that iterator, and the exhausted branch clears the item -/
+theorem octet_iterator_fresh_byte_iterator :
+    octetItem = [c!"&'a[u8]", c!"u16"] ∧
+    octetNewInit = [c!"inner", c!"next:None", c!"current_byte_it:None"] ∧
+    FreshByteIterator (c!"crate::ByteIterator::new") (c!"ffi::OctetString::new") (c!"self.next") octetNextPattern octetNextSome = true ∧
+    ExhaustedClears (c!"self.next") octetNextElse = true := by
+  decide +kernel
+
+/-- every arm of `handle_device_attribute` invokes its namesake callback with the arm's own value and the enum of the
+    arm's own kind; distinct variants reach distinct callbacks -/
+theorem attr_arms_namesake :
+    attrArms.all (AttrArmNamesake attrCfg) = true ∧
+    distinct (attrArms.map (·.variant)) = true ∧ distinct (attrArms.map (·.callee)) = true := by
+  decide +kernel
+
+end handler
+
+/-! ### the model of the crossing used by the engine `ffimeas` (Model/FfiMeas.lean) is lossless -/
+
+/-- a value without a payload-carrying variant crosses unchanged: the model the real binding layer is compared with
+    is the identity -/
+theorem model_crossing_lossless (l : List Char) (h : ∀ c ∈ l, c ≠ '(') : Dnp3.FfiMeas.strip 0 l = l := by
+  induction l with
+  | nil => rfl
+  | cons c cs ih =>
+    have hc : c ≠ '(' := h c (by simp)
+    have hcs : ∀ x ∈ cs, x ≠ '(' := fun x hx => h x (by simp [hx])
+    simp [Dnp3.FfiMeas.strip, hc, ih hcs]
+
+example : Dnp3.FfiMeas.strip 0 "i 7 1 81 sync:5".toList = "i 7 1 81 sync:5".toList :=
+  model_crossing_lossless _ (by decide)
+
+/-- the only thing the model drops is a parenthesised payload -/
+example : String.ofList (Dnp3.FfiMeas.strip 0 "octet_string Group110(5) Range8 0 0".toList) = "octet_string Group110 Range8 0 0" := by
+  decide
 
 end Dnp3.Props.C20
